@@ -31,6 +31,18 @@ CLAIMED = {
         "the corrupted frame's CRC differs (2^-24 residual inherent to CRC)",
         "DESIGN.md 4.12",
     ),
+    "C04": (
+        "static bit-layout extraction (order, width, signedness, multiplicity, contiguity, destination field of every bit read) compared with the oracle layout; structural checks of mask expansion and cell attachment; information-flow analysis for padding non-interference; rejection-site enumeration; type-domain partition for the family gates",
+        "Decides that the MSM4/MSM7 decoders read the standard's layout into the right fields for every mask shape and that the result cannot depend on trailing padding; value-level bit arithmetic is C14's (not claimed).",
+        "bit reader correct (C14); oracle layout transcribed from the bundled RTKLIB decoder",
+        "DESIGN.md 4.4",
+    ),
+    "C05": (
+        "static bit-layout extraction for 1005/1006, rejection-site enumeration against the two stated reasons, constant/format-verb analysis of the display (scale 1/10000, %.4f, X-Y-Z order), padding non-interference",
+        "Decides layout, guards and display formatting structurally for all field values; float rounding argued, not computed.",
+        "bit reader correct (C14); fmt formats %.4f correctly",
+        "DESIGN.md 4.5",
+    ),
     "C06": (
         "static dataflow/dominance rules: lost-update (copy-of-receiver) analysis, per-constellation field separation, type-dispatch table extraction, no-store-on-error paths, strict rollover comparison, constant evaluation",
         "Decides structural necessary conditions of the week bookkeeping (state persistence, constellation separation, dispatch tables over the whole type domain, no state write on error paths, strict rollover test with +7 days, offset/limit constants). Does not decide numerical equality of reported times.",
